@@ -3,6 +3,7 @@ package rules
 import (
 	"fmt"
 	"go/ast"
+	"go/importer"
 	"go/parser"
 	"go/token"
 	"go/types"
@@ -451,6 +452,197 @@ func receiverAppends(c *core.Ctx, p *load.Prog) {
 	}
 	c.Count("receiver_slice_appends", n)
 	c.Floor("receiver_slice_appends", 5)
+	receiverAliasWrites(c, p)
+}
+
+// receiverAliasWrites: R3b. A local variable that is a reslice (or plain copy)
+// of an exported slice field of a by-value receiver/parameter shares the
+// caller's backing array. Appending to it within capacity (`x := f.Consts[:0]`,
+// the in-place filter idiom), storing into its elements, sorting it or copying
+// into it rewrites the caller's File. The same holds for the field itself.
+func receiverAliasWrites(c *core.Ctx, p *load.Prog) {
+	pkg := p.Bebop()
+	decls := map[*types.Func]*ast.FuncDecl{}
+	for fn, fd := range p.AllDecls() {
+		if p.Owner(fn) == pkg && fd.Body != nil {
+			decls[fn] = fd
+		}
+	}
+	nAlias := scanAliasWrites(pkg.TypesInfo, decls, func(fname, what, field string, pos token.Pos) {
+		c.Check("R3b", fmt.Sprintf("%s does not write through storage shared with %s (%s)", fname, field, what), p.Pos(pos), false,
+			"the slice shares the backing array of the caller's "+field+": "+what+" rewrites the File the caller still holds (a second Generate sees the changed list; concurrent calls race)")
+	})
+	c.Check("R3b", "no function writes through a slice shared with a by-value File/record (scan complete)", "gen.go", true, "")
+	c.Count("receiver_slice_aliases", nAlias)
+	// positive control: the rule's expected count on the repository is zero
+	path := filepath.Join(c.VerifDir, "fixtures", "aliaswrite", "fx.go")
+	fset := token.NewFileSet()
+	f, err := parser.ParseFile(fset, path, nil, 0)
+	if err != nil {
+		c.Undecide("positive control fixture: %v", err)
+		return
+	}
+	info := &types.Info{Types: map[ast.Expr]types.TypeAndValue{}, Defs: map[*ast.Ident]types.Object{}, Uses: map[*ast.Ident]types.Object{}, Selections: map[*ast.SelectorExpr]*types.Selection{}}
+	if _, err := (&types.Config{Importer: importer.ForCompiler(fset, "source", nil)}).Check("fx", fset, []*ast.File{f}, info); err != nil {
+		c.Undecide("positive control fixture does not type-check: %v", err)
+		return
+	}
+	fx := map[*types.Func]*ast.FuncDecl{}
+	for _, d := range f.Decls {
+		if fd, ok := d.(*ast.FuncDecl); ok && fd.Body != nil {
+			fx[info.Defs[fd.Name].(*types.Func)] = fd
+		}
+	}
+	hits := map[string]bool{}
+	scanAliasWrites(info, fx, func(fname, what, field string, pos token.Pos) { hits[fname] = true })
+	for _, want := range []string{"T.filterInPlace", "T.store", "T.sortInPlace", "T.appendReslice", "T.copyInto"} {
+		c.Check("R3b", "positive control: "+want+" is recognised", "fixtures/aliaswrite/fx.go", hits[want], "the rule no longer matches the shape it is meant to find")
+	}
+	for _, not := range []string{"T.fresh", "T.clipped", "T.readOnly"} {
+		c.Check("R3b", "positive control: "+not+" is not reported", "fixtures/aliaswrite/fx.go", !hits[not], "")
+	}
+}
+
+func scanAliasWrites(info *types.Info, decls map[*types.Func]*ast.FuncDecl, report0 func(fname, what, field string, pos token.Pos)) int {
+	nAlias := 0
+	for fn, fd := range decls {
+		valueVars := map[types.Object]bool{}
+		sig := fn.Type().(*types.Signature)
+		add := func(v *types.Var) {
+			if v == nil {
+				return
+			}
+			if _, isStruct := v.Type().Underlying().(*types.Struct); isStruct {
+				valueVars[v] = true
+			}
+		}
+		add(sig.Recv())
+		for i := 0; i < sig.Params().Len(); i++ {
+			add(sig.Params().At(i))
+		}
+		if len(valueVars) == 0 {
+			continue
+		}
+		// sharedField: the receiver field an expression shares storage with ("" = none)
+		alias := map[types.Object]string{}
+		var sharedField func(e ast.Expr) string
+		sharedField = func(e ast.Expr) string {
+			switch x := ast.Unparen(e).(type) {
+			case *ast.SelectorExpr:
+				if root, ok := ast.Unparen(x.X).(*ast.Ident); ok && valueVars[info.ObjectOf(root)] && x.Sel.IsExported() {
+					if _, isSlice := info.TypeOf(x).Underlying().(*types.Slice); isSlice {
+						return wire.Canon(x)
+					}
+				}
+			case *ast.Ident:
+				return alias[info.ObjectOf(x)]
+			case *ast.SliceExpr:
+				return sharedField(x.X)
+			}
+			return ""
+		}
+		// aliases are collected flow-insensitively: a variable that ever holds
+		// shared storage is treated as shared (a variable re-pointed to a fresh
+		// copy before the write would be a false report; none exists, and the
+		// report names the definition so it can be judged)
+		for changed := true; changed; {
+			changed = false
+			ast.Inspect(fd.Body, func(m ast.Node) bool {
+				as, ok := m.(*ast.AssignStmt)
+				if !ok || len(as.Lhs) != len(as.Rhs) {
+					return true
+				}
+				for i, l := range as.Lhs {
+					id, ok := l.(*ast.Ident)
+					if !ok || id.Name == "_" {
+						continue
+					}
+					if f := sharedField(as.Rhs[i]); f != "" {
+						// a full slice expression with max == high cannot grow into the caller's array,
+						// but element writes still land there: keep it as an alias for stores only
+						obj := info.ObjectOf(id)
+						if alias[obj] == "" {
+							alias[obj] = f
+							changed = true
+						}
+					}
+				}
+				return true
+			})
+		}
+		nAlias += len(alias)
+		name := load.FuncName(fn)
+		report := func(pos token.Pos, what, field string) { report0(name, what, field, pos) }
+		clipped3 := func(e ast.Expr) bool {
+			se, ok := ast.Unparen(e).(*ast.SliceExpr)
+			return ok && se.Slice3 && se.Max != nil && se.High != nil && wire.Canon(se.High) == wire.Canon(se.Max)
+		}
+		ast.Inspect(fd.Body, func(m ast.Node) bool {
+			switch x := m.(type) {
+			case *ast.AssignStmt:
+				for _, l := range x.Lhs {
+					if ix, ok := l.(*ast.IndexExpr); ok {
+						if f := sharedField(ix.X); f != "" {
+							report(x.Pos(), "element store "+wire.Canon(l), f)
+						}
+					}
+				}
+			case *ast.CallExpr:
+				cf := wire.Canon(x.Fun)
+				switch {
+				case cf == "append" && len(x.Args) >= 1:
+					// appends onto the field itself are R3 (clip dominance); here: aliases
+					if id, ok := ast.Unparen(x.Args[0]).(*ast.Ident); ok {
+						if f := alias[info.ObjectOf(id)]; f != "" && !aliasAlwaysClipped(info, fd, info.ObjectOf(id), clipped3) {
+							report(x.Pos(), "append onto "+id.Name, f)
+						}
+					} else if se, ok := ast.Unparen(x.Args[0]).(*ast.SliceExpr); ok && !clipped3(se) {
+						if f := sharedField(se.X); f != "" {
+							report(x.Pos(), "append onto "+wire.Canon(se), f)
+						}
+					}
+				case (strings.HasPrefix(cf, "sort.") || cf == "slices.Sort" || cf == "slices.SortFunc" || cf == "slices.SortStableFunc" || cf == "slices.Reverse") && len(x.Args) >= 1:
+					if f := sharedField(x.Args[0]); f != "" {
+						report(x.Pos(), cf+" in place", f)
+					}
+				case cf == "copy" && len(x.Args) == 2:
+					if f := sharedField(x.Args[0]); f != "" {
+						report(x.Pos(), "copy into "+wire.Canon(x.Args[0]), f)
+					}
+				}
+			}
+			return true
+		})
+	}
+	return nAlias
+}
+
+// aliasAlwaysClipped: every definition of the alias is a full slice expression
+// whose capacity equals its length (append then reallocates).
+func aliasAlwaysClipped(info *types.Info, fd *ast.FuncDecl, obj types.Object, clipped3 func(ast.Expr) bool) bool {
+	all, any := true, false
+	ast.Inspect(fd.Body, func(m ast.Node) bool {
+		as, ok := m.(*ast.AssignStmt)
+		if !ok || len(as.Lhs) != len(as.Rhs) {
+			return true
+		}
+		for i, l := range as.Lhs {
+			if id, ok := l.(*ast.Ident); ok && info.ObjectOf(id) == obj {
+				// x = append(x, …) keeps whatever x was
+				if call, ok := ast.Unparen(as.Rhs[i]).(*ast.CallExpr); ok && wire.Canon(call.Fun) == "append" && len(call.Args) > 0 {
+					if a, ok := ast.Unparen(call.Args[0]).(*ast.Ident); ok && info.ObjectOf(a) == obj {
+						continue
+					}
+				}
+				any = true
+				if !clipped3(as.Rhs[i]) {
+					all = false
+				}
+			}
+		}
+		return true
+	})
+	return any && all
 }
 
 // scratchPerCall: R4
